@@ -681,7 +681,57 @@ type encCtx struct {
 	par string // slice path: the parameter (`b` for generated code, = acc for hand-written code)
 }
 
-func (c *encCtx) szName(e ast.Expr) bool { return isIdent(e, "sz") || isIdent(e, "size") }
+var zbLen = regexp.MustCompile(`^zb[0-9]+Len$`)
+var zbMask = regexp.MustCompile(`^zb[0-9]+Mask$`)
+
+func (c *encCtx) szName(e ast.Expr) bool {
+	id, ok := e.(*ast.Ident)
+	return ok && (id.Name == "sz" || id.Name == "size" || zbLen.MatchString(id.Name))
+}
+
+func isMaskVar(e ast.Expr) bool {
+	id, ok := e.(*ast.Ident)
+	return ok && zbMask.MatchString(id.Name)
+}
+
+// a literal with exactly one bit set: the interpreter keeps the mask as the list of such bits
+func oneBit(e ast.Expr) (string, bool) {
+	v, ok := smallLit(e)
+	switch v {
+	case "1", "2", "4", "8", "16", "32", "64", "128":
+		return v, ok
+	}
+	return "", false
+}
+
+func smallLit(e ast.Expr) (string, bool) {
+	bl, ok := e.(*ast.BasicLit)
+	if !ok || bl.Kind != token.INT {
+		return "", false
+	}
+	v, err := strconv.ParseUint(bl.Value, 0, 8)
+	if err != nil {
+		return "", false
+	}
+	return fmt.Sprint(v), true
+}
+
+// 0x80 | uint8(zbLen)
+func (c *encCtx) orSz(e ast.Expr) (string, bool) {
+	be, ok := e.(*ast.BinaryExpr)
+	if !ok || be.Op != token.OR {
+		return "", false
+	}
+	base, ok := smallLit(be.X)
+	if !ok || base != "128" { // the fixmap header 0x80: with a count ≤ 15 (three fields here) `|` is `+`, which is how it is interpreted
+		return "", false
+	}
+	cv, ok := be.Y.(*ast.CallExpr)
+	if !ok || !isIdent(cv.Fun, "uint8") || len(cv.Args) != 1 || !c.szName(cv.Args[0]) {
+		return "", false
+	}
+	return base, true
+}
 
 // the body of an error check: `{ return }`, `{ err = msgp.WrapError(err, …); return }`, `{ return [acc,] err|WrapError(err,…) }`
 func (c *encCtx) isErrCheck(s ast.Stmt) bool {
@@ -747,6 +797,11 @@ func (c *encCtx) encCall(e ast.Expr) (kind, prim, field string, fallible, ok boo
 		return "[" + strings.Join(vs, ", ") + "]", len(vs) > 0
 	}
 	if id, isId := call.Fun.(*ast.Ident); isId && id.Name == "append" && !c.stream {
+		if len(call.Args) == 2 && isIdent(call.Args[0], c.acc) {
+			if base, good := c.orSz(call.Args[1]); good {
+				return "rawor", base, "", false, true
+			}
+		}
 		if len(call.Args) >= 2 && isIdent(call.Args[0], c.acc) && call.Ellipsis == token.NoPos {
 			if l, good := byteLits(call.Args[1:]); good {
 				return "raw", l, "", false, true
@@ -782,14 +837,14 @@ func (c *encCtx) encCall(e ast.Expr) (kind, prim, field string, fallible, ok boo
 			return
 		}
 		table = map[string]string{"WriteString": ".str", "WriteInt64": ".int64", "WriteIntf": ".intf", "WriteExtension": ".eventTime",
-			"WriteBytes": ".bin", "WriteBool": ".bool", "WriteNil": "nil", "WriteArrayHeader": "hdr", "Append": "raw"}
+			"WriteBytes": ".bin", "WriteBool": ".bool", "WriteInt": ".int64", "WriteNil": "nil", "WriteArrayHeader": "hdr", "Append": "raw"}
 	} else {
 		if !isIdent(se.X, "msgp") || len(args) == 0 || !isIdent(args[0], c.acc) {
 			return
 		}
 		args = args[1:]
 		table = map[string]string{"AppendString": ".str", "AppendInt64": ".int64", "AppendIntf": ".intf", "AppendExtension": ".eventTime",
-			"AppendBytes": ".bin", "AppendBool": ".bool", "AppendNil": "nil", "AppendArrayHeader": "hdr"}
+			"AppendBytes": ".bin", "AppendBool": ".bool", "AppendInt": ".int64", "AppendNil": "nil", "AppendArrayHeader": "hdr"}
 	}
 	p, found := table[name]
 	if !found {
@@ -802,6 +857,11 @@ func (c *encCtx) encCall(e ast.Expr) (kind, prim, field string, fallible, ok boo
 		}
 		return
 	case "raw":
+		if len(args) == 1 {
+			if base, good := c.orSz(args[0]); good {
+				return "rawor", base, "", false, true
+			}
+		}
 		if l, good := byteLits(args); good {
 			return "raw", l, "", false, true
 		}
@@ -836,6 +896,12 @@ func (c *encCtx) encCall(e ast.Expr) (kind, prim, field string, fallible, ok boo
 		return "put", p, f, true, true
 	default:
 		if len(args) != 1 {
+			return
+		}
+		if st, isSt := args[0].(*ast.StarExpr); isSt { // *recv.Field
+			if f, isF := c.recvField(st.X); isF && strings.HasPrefix(strings.TrimSpace(c.ftypes[f]), "*") {
+				return "put", p, "*" + f, false, true
+			}
 			return
 		}
 		f, isF := c.recvField(args[0])
@@ -881,9 +947,19 @@ func (c *encCtx) block(ss []ast.Stmt, top bool) []string {
 				out = append(out, c.unknown(s))
 				continue
 			}
-			// sz = N / size := N
+			if len(st.Lhs) == 1 && isMaskVar(st.Lhs[0]) && st.Tok == token.OR_ASSIGN {
+				if v, ok := oneBit(st.Rhs[0]); ok {
+					out = append(out, ".orMask "+v)
+					continue
+				}
+			}
+			// sz = N / size := N / zb0001Len := uint32(N)
 			if len(st.Lhs) == 1 && c.szName(st.Lhs[0]) {
-				if v, ok := natLit(st.Rhs[0]); ok {
+				rhs := st.Rhs[0]
+				if cv, isCv := rhs.(*ast.CallExpr); isCv && isIdent(cv.Fun, "uint32") && len(cv.Args) == 1 {
+					rhs = cv.Args[0]
+				}
+				if v, ok := natLit(rhs); ok && len(v) <= 2 && v <= "15" || ok && len(v) == 1 {
 					out = append(out, ".setSz "+v)
 					continue
 				}
@@ -935,6 +1011,8 @@ func (c *encCtx) block(ss []ast.Stmt, top bool) []string {
 				}
 			}
 			switch kind {
+			case "rawor":
+				out = append(out, ".rawOrSz "+prim)
 			case "raw":
 				out = append(out, ".raw "+prim)
 			case "nil":
@@ -968,11 +1046,38 @@ func (c *encCtx) block(ss []ast.Stmt, top bool) []string {
 				out = append(out, fmt.Sprintf("%s %s [%s] [%s]", ctor, fld(f), strings.Join(c.block(st.Body.List, false), ", "), strings.Join(els, ", ")))
 				continue
 			}
+			if be, isBe := st.Cond.(*ast.BinaryExpr); isBe && be.Op == token.EQL && st.Else == nil {
+				// recv.F == ""
+				if f, isF := c.recvField(be.X); isF {
+					if bl, isBl := be.Y.(*ast.BasicLit); isBl && bl.Kind == token.STRING && bl.Value == `""` && strings.TrimSpace(c.ftypes[f]) == "string" {
+						out = append(out, fmt.Sprintf(".ifEmpty %s [%s]", fld(f), strings.Join(c.block(st.Body.List, false), ", ")))
+						continue
+					}
+				}
+				// (zbMask & 0x1) == 0
+				x := be.X
+				if pe, isPe := x.(*ast.ParenExpr); isPe {
+					x = pe.X
+				}
+				if and, isAnd := x.(*ast.BinaryExpr); isAnd && and.Op == token.AND && isMaskVar(and.X) {
+					bit, okBit := oneBit(and.Y)
+					if zero, isZ := be.Y.(*ast.BasicLit); okBit && isZ && zero.Value == "0" {
+						out = append(out, fmt.Sprintf(".ifMaskClear %s [%s]", bit, strings.Join(c.block(st.Body.List, false), ", ")))
+						continue
+					}
+				}
+			}
 			if be, isBe := st.Cond.(*ast.BinaryExpr); isBe && be.Op == token.EQL && c.szName(be.X) && st.Else == nil {
 				if v, ok := natLit(be.Y); ok {
 					out = append(out, fmt.Sprintf(".ifSzEq %s [%s]", v, strings.Join(c.block(st.Body.List, false), ", ")))
 					continue
 				}
+			}
+			out = append(out, c.unknown(s))
+		case *ast.IncDecStmt:
+			if st.Tok == token.DEC && c.szName(st.X) {
+				out = append(out, ".decSz")
+				continue
 			}
 			out = append(out, c.unknown(s))
 		case *ast.RangeStmt:
@@ -993,6 +1098,8 @@ func (c *encCtx) block(ss []ast.Stmt, top bool) []string {
 				(c.stream && len(st.Results) == 1 && (isIdent(st.Results[0], "nil") || isIdent(st.Results[0], "err")))
 			if good && top && i == len(ss)-1 {
 				out = append(out, ".ret")
+			} else if len(st.Results) == 0 && c.named {
+				out = append(out, ".ret") // named results: the bytes so far and the current err, from anywhere
 			} else {
 				out = append(out, c.unknown(s))
 			}
@@ -1010,8 +1117,11 @@ func encoderSkeleton(fset *token.FileSet, repo string, fd *ast.FuncDecl, goName,
 	par := fd.Type.Params.List[0].Names[0].Name
 	c := &encCtx{skCtx: skCtx{fset: fset, recv: recvNameOf(fd), in: par, stream: m == "EncodeMsg", ftypes: ft, deep: true}, acc: par, par: par}
 	// generated code: named results (o []byte, err error); the encoding is appended to `o`
-	if m == "MarshalMsg" && fd.Type.Results != nil && len(fd.Type.Results.List) >= 1 && len(fd.Type.Results.List[0].Names) == 1 {
-		c.acc = fd.Type.Results.List[0].Names[0].Name
+	if fd.Type.Results != nil && len(fd.Type.Results.List) >= 1 && len(fd.Type.Results.List[0].Names) == 1 {
+		c.named = true
+		if m == "MarshalMsg" {
+			c.acc = fd.Type.Results.List[0].Names[0].Name
+		}
 	}
 	return c.block(fd.Body.List, true)
 }
@@ -1120,7 +1230,7 @@ func codecSkeletons(repo string) string {
 		}
 	}
 	for _, ty := range []struct{ goName, lean string }{{"Entry", "Entry"}, {"EntryExt", "EntryExt"}, {"Ping", "Ping"}, {"Pong", "Pong"},
-		{"AckMessage", "Ack"}, {"HeloOpts", "HeloOpts"}, {"Helo", "Helo"}} {
+		{"AckMessage", "Ack"}, {"HeloOpts", "HeloOpts"}, {"Helo", "Helo"}, {"MessageOptions", "MessageOptions"}} {
 		ft := structFields(files, fset, ty.goName)
 		for _, m := range []string{"MarshalMsg", "EncodeMsg"} {
 			fd := methods[ty.goName+"."+m]
